@@ -17,13 +17,14 @@ def xlsb_step(ctx, formats):
         "built-in date ids, in every order; 1 or 3 style XFs; cell XFs; both date systems), each materialised "
         "with one cell per (cell XF, numeric encoding); every MC_NumFmt format is also stored as BrtFmt of real "
         "xlsb workbooks (6 encodings, two layouts, both date systems) and every built-in id as BrtXF numFmtId")
-    ctx.assumptions.append("xlsb: a BrtFmt redefining a built-in date/time id with a string of another class is not asserted")
-    a = ctx.tlc("fmt", "MC_XlsbStyles", "MC_XlsbStyles_asis.cfg", workers=2, timeout=300, xmx="2g", allow_violation=True)
-    ctx.states -= a["distinct"]
-    ctx.transitions -= a["generated"]
-    ctx.extra["refuted:MC_XlsbStyles_asis.cfg"] = bool(a["violated"])
-    if not a["violated"]:
-        ctx.fail("selftest:asis-model-not-refuted", {"kind": "selftest", "info": "MC_XlsbStyles_asis.cfg (integer RK ignores the style) was not refuted", "tlc_output": a["out"]})
+    for cfg, what in (("MC_XlsbStyles_asis.cfg", "integer RK ignores the style"),
+                      ("MC_XlsbStyles_asis_builtin.cfg", "a format declared under a built-in date id is ignored")):
+        a = ctx.tlc("fmt", "MC_XlsbStyles", cfg, workers=2, timeout=300, xmx="2g", allow_violation=True)
+        ctx.states -= a["distinct"]
+        ctx.transitions -= a["generated"]
+        ctx.extra["refuted:" + cfg] = bool(a["violated"])
+        if not a["violated"]:
+            ctx.fail("selftest:asis-model-not-refuted", {"kind": "selftest", "info": "%s (%s) was not refuted" % (cfg, what), "tlc_output": a["out"]})
     s = ctx.tlc("fmt", "MC_XlsbStyles", ctx.pick("MC_XlsbStyles_quick.cfg", "MC_XlsbStyles_thorough.cfg"),
                 workers=ctx.pick(4, 8), timeout=ctx.pick(300, 1800), xmx=ctx.pick("3g", "8g"))
     if "REPLAY" in s["tags"]:
